@@ -7,6 +7,9 @@ fn opening_kind(p: &Pkt) -> bool {
 #[derive(Debug, PartialEq, Eq, Clone, Copy)]
 pub enum Expect {
     Accept,
+    /// the Receive Maximum bookkeeping is ambiguous (an exchange of an earlier connection is
+    /// still open): acceptance and a ReceiveMaximumExceeded refusal are both fine
+    EitherRm,
     /// refused; bool = a release of the packet's id is owed (if in use)
     Refuse(bool),
     /// accepted-and-stored or refused are both within the statements
@@ -120,7 +123,10 @@ impl Watch {
             }
             if p.qos > 0 && connected {
                 if let Some(mx) = m.rm_send {
-                    if !m.flow_ambiguous && m.flow_count() >= mx as usize {
+                    if m.flow_ambiguous {
+                        return Expect::EitherRm;
+                    }
+                    if m.flow_count() >= mx as usize {
                         return Expect::Refuse(true);
                     }
                 }
@@ -169,6 +175,11 @@ impl Watch {
         let id_used = p.id.map_or(false, |i| self.m.ids.contains(&i));
 
         let refused = errored;
+        let expect = if expect == Expect::EitherRm {
+            if refused && evs.iter().any(|e| e.err_code() == Some(E_RM_EXCEEDED)) { Expect::Refuse(true) } else { Expect::Accept }
+        } else {
+            expect
+        };
         match expect {
             Expect::Refuse(_) if !refused => {
                 let props: &[&'static str] = if p.kind == PUBLISH && p.v == 5 && self.m.st == St::Connected && n_send > 0 {
@@ -211,7 +222,7 @@ impl Watch {
             let owe = match expect {
                 Expect::Refuse(o) => o,
                 Expect::Either => opening_kind(p),
-                Expect::Accept => false,
+                Expect::Accept | Expect::EitherRm => false,
             };
             if let Some(id) = p.id {
                 if id_used {
@@ -743,6 +754,15 @@ impl Watch {
                 self.stats.hit("c08_close_release");
             }
             self.m.st = St::Disc;
+            // negotiated limits and alias tables are connection-scoped
+            self.m.rm_send = None;
+            self.m.rm_recv = None;
+            self.m.mps_send = None;
+            self.m.mps_recv = None;
+            self.m.tam_send = 0;
+            self.m.tam_recv = 0;
+            self.m.peer_alias.clear();
+            self.m.local_alias.clear();
             if evs.iter().any(|e| matches!(e, Ev::Send { .. } | Ev::Close | Ev::Recv { .. })) {
                 self.flag(&["C05", "C19"], "notify-closed-side-effect", format!("{what}: {}", evs_short(&evs)));
                 return evs;
